@@ -52,18 +52,29 @@ type totWorld struct {
 	pkg *gogen.Package
 	cb  *gogen.CodeBuilder
 	n   int
+	npush int
+	src bool // configuration "src": operands and operations carry source nodes
+}
+
+// srcNode makes a source node with a position for the k-th operand / the operation of a point
+func (w *totWorld) srcNode(k int) []ast.Node {
+	if !w.src {
+		return nil
+	}
+	return []ast.Node{&ast.Ident{NamePos: token.Pos(10 + 10*k), Name: fmt.Sprintf("src%d", k)}}
 }
 
 func newTotWorld(cfg string) *totWorld {
 	fset, imp := sharedImporter()
-	c := &gogen.Config{Fset: fset, Importer: imp, HandleErr: func(error) {}}
+	// a client that collects errors renders them: a fault while rendering is a fault of the operation that reported
+	c := &gogen.Config{Fset: fset, Importer: imp, HandleErr: func(e error) { _ = e.Error() }}
 	switch cfg {
 	case "recorder":
 		c.Recorder = totRecorder{}
 	case "noskip":
 		c.NoSkipConstant = true
 	}
-	w := &totWorld{}
+	w := &totWorld{src: cfg == "src"}
 	w.pkg = gogen.NewPackage("", "p", c)
 	pkg := w.pkg
 	ti := types.Typ[types.Int]
@@ -97,27 +108,29 @@ func newTotWorld(cfg string) *totWorld {
 
 func (w *totWorld) push(cls string) {
 	cb := w.cb
+	w.npush++
+	sn := w.srcNode(w.npush)
 	ref := func(n string) types.Object { return w.pkg.Types.Scope().Lookup(n) }
-	lit := func(s string) { cb.Val(&ast.BasicLit{Kind: token.INT, Value: s}) }
+	lit := func(s string) { cb.Val(&ast.BasicLit{Kind: token.INT, Value: s}, sn...) }
 	switch cls {
 	case "int", "int8", "uint", "float", "string", "bool", "slice", "array", "map", "chan", "ptr", "func", "struct", "iface", "named", "cyc", "cycptr", "recslice":
-		cb.Val(ref("v" + cls))
+		cb.Val(ref("v"+cls), sn...)
 	case "c0":
-		cb.Val(0)
+		cb.Val(0, sn...)
 	case "c1":
-		cb.Val(1)
+		cb.Val(1, sn...)
 	case "cneg":
-		cb.Val(-1)
+		cb.Val(-1, sn...)
 	case "cfloat":
-		cb.Val(&ast.BasicLit{Kind: token.FLOAT, Value: "1.5"})
+		cb.Val(&ast.BasicLit{Kind: token.FLOAT, Value: "1.5"}, sn...)
 	case "cstring":
-		cb.Val("s")
+		cb.Val("s", sn...)
 	case "cbool":
-		cb.Val(true)
+		cb.Val(true, sn...)
 	case "crune":
-		cb.Val('a')
+		cb.Val('a', sn...)
 	case "nil":
-		cb.Val(nil)
+		cb.Val(nil, sn...)
 	case "c2p40":
 		lit("1099511627776") // as a shift count it asks for 2^40 bits (128 GB)
 	case "c2p63":
@@ -131,13 +144,13 @@ func (w *totWorld) push(cls string) {
 	case "cbigshift":
 		lit("4611686018427387904") // 2^62: as a shift count it asks for 2^62 bits
 	case "type":
-		cb.Typ(types.Typ[types.Int])
+		cb.Typ(types.Typ[types.Int], sn...)
 	case "ref":
-		cb.VarRef(ref("vint"))
+		cb.VarRef(ref("vint"), sn...)
 	case "tuple2":
-		cb.Val(ref("f2")).Call(0)
+		cb.Val(ref("f2")).CallWith(0, 0, 0, sn...)
 	case "novalue":
-		cb.Val(ref("f0")).Call(0)
+		cb.Val(ref("f0")).CallWith(0, 0, 0, sn...)
 	default:
 		panic("harness: unknown operand class " + cls)
 	}
@@ -153,7 +166,24 @@ func (w *totWorld) exec(p totPoint) (outcome, msg string) {
 	ti := types.Typ[types.Int]
 	defer func() {
 		if e := recover(); e != nil {
-			outcome, msg = "reported", fmt.Sprint(e)
+			outcome = "reported"
+			if err, isErr := e.(error); isErr {
+				if _, rt := e.(interface{ RuntimeError() }); !rt {
+					// the client reads the reported error: a fault while rendering it (fmt would swallow it) is a fault
+					func() {
+						defer func() {
+							if e2 := recover(); e2 != nil {
+								outcome, msg = "fault", fmt.Sprintf("rendering the reported %T: %v", err, e2)
+							}
+						}()
+						msg = err.Error()
+					}()
+					if outcome == "fault" {
+						return
+					}
+				}
+			}
+			msg = fmt.Sprint(e)
 			if _, ok := e.(interface{ RuntimeError() }); ok {
 				outcome = "fault"
 			} else if s, ok := e.(string); ok && isForeignPanic(s) {
@@ -172,15 +202,15 @@ func (w *totWorld) exec(p totPoint) (outcome, msg string) {
 	switch {
 	case strings.HasPrefix(op, "UnaryOp"):
 		w.push(p.X)
-		cb.UnaryOp(totTok[op[7:]])
+		cb.UnaryOp(totTok[op[7:]], w.srcNode(0)...)
 	case strings.HasPrefix(op, "BinaryOp"):
 		w.push(p.X)
 		w.push(p.Y)
-		cb.BinaryOp(totTok[op[8:]])
+		cb.BinaryOp(totTok[op[8:]], w.srcNode(0)...)
 	case strings.HasPrefix(op, "AssignOp"):
 		w.push(p.X)
 		w.push(p.Y)
-		cb.AssignOp(totTok[op[8:]])
+		cb.AssignOp(totTok[op[8:]], w.srcNode(0)...)
 	default:
 		switch op {
 		case "Star":
@@ -575,10 +605,10 @@ func runC17(tier, replay string) {
 		run.Set("tlc_states", res.Distinct)
 	}
 	if tier == "quick" && replay == "" {
-		// quick: the default configuration for binary points, every configuration for unary points
+		// quick: the default and the src configuration for binary points, every configuration for unary points
 		var keep []totPoint
 		for _, p := range points {
-			if p.Y == "-" || p.Cfg == "default" {
+			if p.Y == "-" || p.Cfg == "default" || p.Cfg == "src" {
 				keep = append(keep, p)
 			}
 		}
